@@ -179,6 +179,9 @@ def build_class(case, sm_mod, log, clock, scripts_abs):
             rec[3] = kw["state_tm"]
         if "initial_call" in kw:
             rec[4] = kw["initial_call"]
+        if len(self._log) > 20000:
+            # a single call of the library that runs state functions without end (histories have a few dozen operations)
+            raise common.Hang("more than 20000 state-function calls in one operation")
         self._log.append(rec)
         acts = case["scripts"][k] if (k < len(case["scripts"]) and not self._quiet) else []
         out = []
@@ -322,15 +325,17 @@ def run_impl(case, tag="x"):
             keep = clock.t
             for top in twin["ops"][opi_]:
                 try:
-                    if top[0] == "engage":
-                        m2.engage()
-                    elif top[0] == "done":
-                        m2.done()
-                    else:
-                        clock.t = top[1]
-                        m2.on_iteration(top[1] / TPS) if case["auto"] else m2.execute()
+                    with common.time_limit(5):
+                        if top[0] == "engage":
+                            m2.engage()
+                        elif top[0] == "done":
+                            m2.done()
+                        else:
+                            clock.t = top[1]
+                            m2.on_iteration(top[1] / TPS) if case["auto"] else m2.execute()
                 except Exception:       # noqa
                     pass
+                del m2._log[:]
             clock.t = keep
         del log[:]
         err = None
